@@ -250,6 +250,14 @@ pub fn judge(ctx: &mut Ctx, s: &str) {
     if let Ok(Err(e)) = guarded(|| Range::parse(s)) {
         judge_error(ctx, s, &e, "Range");
     }
+    // `str::parse` is the same parse reached through the FromStr impls (serde's Deserialize
+    // goes through it as well): its errors are held to the same clauses
+    if let Ok(Err(e)) = guarded(|| s.parse::<Version>()) {
+        judge_error(ctx, s, &e, "Version");
+    }
+    if let Ok(Err(e)) = guarded(|| s.parse::<Range>()) {
+        judge_error(ctx, s, &e, "Range");
+    }
 }
 
 pub const SIGMA_R: &[char] = &['1', '.', 'x', '-', ' ', '|', '>', '<', '=', '~', '^', 'a', '\n', 'é'];
